@@ -41,6 +41,9 @@ def correspondence(ctx):
     for s_ in structured_strings(ctx, 800 if ctx.tier == 'quick' else 10000, ['filler_ascii', 'filler_2', 'filler_3', 'filler_4', 'space', 'space', 'space', 'bad', 'wide', 'marks']):
         cases.append(f'rules|nick|addmap|{hexs(s_)}')
         cases.append(f'rules|op|addmap|{hexs(s_)}')
+    for s_ in product_strings(ctx, tails=[[0x20, 0x20, 0x62], [0xA0, 0x62], [0x20], [0x3000], [0x62, 0x20, 0x20, 0xE9], [0x9, 0x20, 0x20]], heads=[[], [0x20], [0x61, 0x20]], extra_long=(ctx.requested_tier == 'thorough')):
+        cases.append(f'rules|nick|addmap|{hexs(s_)}')
+        cases.append(f'rules|op|addmap|{hexs(s_)}')
     cases += fuzz_cases(ctx, {7})      # coverage-guided search of the tree under check (only when the source changed / thorough)
     res = run_cases(cases, ctx.work)
     zset = set(zs)
